@@ -110,6 +110,9 @@ EvalL(e, x, dv, D) ==
       \* logical-count forms: a[1] numeric, a[2] a count (o59) expression
       cnt == A(2)
   IN CASE e.k = "n" -> e.v # 0
+       \* a numeric expression used as a condition is true when it is not 0
+       [] e.k \in {"v", "d", "pl"} -> EvalN(e, x, dv, D) # 0
+       [] e.op \in {0, 1, 2, 3, 6, 11, 12, 15, 16, 35, 54, 59, 60, 76, 77} -> EvalN(e, x, dv, D) # 0
        [] e.op = 20 -> L(1) \/ L(2)
        [] e.op = 21 -> L(1) /\ L(2)
        [] e.op = 22 -> A(1) < A(2)
